@@ -73,6 +73,10 @@ def lawRowRevComp (comp : UInt8 → UInt8) (b a : ObjV) (r : Nat) : Why :=
       else check (ra == rb) "row-revcomp-touched-another-row"
     | _, _ => some "row-revcomp-shape"
 
+/-- the position of a row's first cell: the alignment's start for the rows of a column-stored
+    alignment, the row's own start otherwise -/
+def setBase (b : ObjV) (rb : RowV) : Int := match b.kind with | "aln" | "qaln" => b.start | _ => rb.start
+
 /-- `Set(pos, c)` through row `r`: that cell shows `c`, nothing else changes -/
 def lawSet (b a : ObjV) (r : Nat) (pos : Int) (c : QL) : Why :=
   (check (a.rows.length == b.rows.length) "set-shape").and fun _ =>
@@ -80,8 +84,7 @@ def lawSet (b a : ObjV) (r : Nat) (pos : Int) (c : QL) : Why :=
     match b.rows[i]?, a.rows[i]? with
     | some rb, some ra =>
       if i == r then
-        let base : Int := match b.kind with | "aln" | "qaln" => b.start | _ => rb.start
-        let idx := (pos - base).toNat
+        let idx := (pos - setBase b rb).toNat
         let want := if rb.q then c else ⟨c.L, defaultQ⟩
         check (ra.cells[idx]? == some want &&
                ra.cells.length == rb.cells.length &&
